@@ -536,6 +536,67 @@ def run (j : Json) : Except String Json := do
       ("rates", jArr (fun u => jRat (P.rate s.status u)) nodes)])
 end DrvCC
 
+/-! ### Gillespie_simple_contagion (C03) -/
+namespace DrvSC
+open Simple
+
+def getParams (j : Json) : Except String (SCParams String) := do
+  let n ← getNat (← fld j "n")
+  let succ ← getList (getList getNat) (← fld j "succ")
+  let pred ← getList (getList getNat) (← fld j "pred")
+  let directed ← getBool (← fld j "directed")
+  let ret ← getList getStr (← fld j "ret")
+  let spont ← getList (fun e => do
+    match ← getArr e with
+    | [a, b, r, w] =>
+      let w ← (match w with
+        | .null => pure none
+        | x => do let l ← getList getRat x; pure (some (listFn l 0)))
+      pure ({ src := (← getStr a), dst := (← getStr b), rate := (← getRat r), w := w } : SpontTr String)
+    | _ => .error "bad spont") (← fld j "spont")
+  let ind ← getList (fun e => do
+    match ← getArr e with
+    | [a, b, c, r, w] =>
+      let w ← (match w with
+        | .null => pure none
+        | x => do
+          let l ← getList (fun t => do
+            match ← getArr t with
+            | [u, v, ww] => pure ((← getNat u), (← getNat v), (← getRat ww))
+            | _ => .error "bad ew") x
+          pure (some (DrvG.pairTable l)))
+      pure ({ a := (← getStr a), b := (← getStr b), c := (← getStr c), rate := (← getRat r), w := w } : IndTr String)
+    | _ => .error "bad induced") (← fld j "induced")
+  pure { nodes := List.range n, succ := listFn succ [], pred := listFn pred [], directed := directed,
+         spont := spont, ind := ind, ret := ret }
+
+def run (j : Json) : Except String Json := do
+  let P ← getParams j
+  let ic ← getList getStr (← fld j "IC")
+  let tmin ← getRat (← fld j "tmin")
+  let tmax ← getERat (← fld j "tmax")
+  let tape ← getList getDraw (← fld j "tape")
+  match (Simple.run P (fun u => ic.getD u "") tmin tmax 100000 1000) { tape := tape } with
+  | .error e => pure (errObj e)
+  | .ok (s, ts) =>
+    pure (Json.mkObj [("ok", Json.bool true), ("trace", Json.arr (ts.trace.map jCall)), ("unused", jNat ts.tape.length),
+      ("times", jArr jRat s.times.reverse), ("cols", jArr (fun c => jArr jInt c.reverse) s.data),
+      ("log", jArr (fun e => Json.arr #[jRat e.1, (match e.2.1 with | some u => jNat u | none => Json.null),
+                                          jNat e.2.2.1, Json.str e.2.2.2]) s.log.reverse),
+      ("pt", jArr (fun ld => jArr (jArr jNat) ld.items) (s.ptS ++ s.ptI))])
+
+/-- specification: enabled events and their rates in a status vector -/
+def rates (j : Json) : Except String Json := do
+  let P ← getParams j
+  let stl ← getList getStr (← fld j "status")
+  let st : Node → String := fun u => stl.getD u ""
+  let evS := P.spont.flatMap fun tr => (enabledS P st tr).map fun e =>
+    Json.arr #[Json.null, jNat e.1, Json.str tr.dst, jRat e.2]
+  let evI := P.ind.flatMap fun tr => (enabledI P st tr).map fun e =>
+    Json.arr #[jNat e.1.1, jNat e.1.2, Json.str tr.c, jRat e.2]
+  pure (Json.mkObj [("ok", Json.bool true), ("events", Json.arr (evS ++ evI).toArray), ("total", jRat (specTotal P st))])
+end DrvSC
+
 def dispatch (j : Json) : Except String Json := do
   let op ← getStr (← fld j "op")
   match op with
@@ -553,6 +614,8 @@ def dispatch (j : Json) : Except String Json := do
   | "dsir" => DrvD.run j
   | "esis" => DrvSS.run j
   | "complex" => DrvCC.run j
+  | "simple" => DrvSC.run j
+  | "simple_rates" => DrvSC.rates j
   | "reedfrost" => DrvD.reedfrost j
   | _ => .error s!"unknown op {op}"
 
